@@ -156,6 +156,7 @@ def run(ck):
     ck.rule("C08.R15", "a published `always` is honoured: no filter bit survives an emission to make a later always-cached event skip a layer (bitmap typestate, as C07.R5)", floor=100)
     ck.rule("C08.R15s", "effect summaries behind C08.R15 (as C07.R5s)", floor=9)
     ck.rule("C08.R16", "what a collector / layer / filter publishes when it does not override the summary methods: interest from its own `enabled` (never iff it says no), no level hint, `sometimes` for a per-layer filter, and no event-level veto", floor=9)
+    ck.rule("C08.R17", "EnvFilter's `always for a matched span` applies to spans: Metadata::is_span / is_event read their own kind bit (as C11.R16)", floor=6)
     ck.rule("C08.R8", "level hints and thresholds are compared by a correct total order (as C19.R1/R2/R4)", floor=60)
     ck.rule("C08.R1", "And/Or/Not: interest table sound w.r.t. enabled; hint is a sound bound", floor=6)
     ck.rule("C08.R2", "Option<F>: None is neutral, Some forwards", floor=4)
@@ -174,6 +175,8 @@ def run(ck):
     inner_is_registry_rule(ck, F)
     pick_tables(ck, F)
     provided_summaries(ck, F)
+    from rules import C11 as _C11
+    _C11.kind_rule(ck, F, rid="C08.R17")
     # what a stack publishes as `always` is only true if the per-filter state every later emission reads is left clean
     C07.r5(ck, Facts("release"), rid="C08.R15")
     from rules import C09
